@@ -390,7 +390,10 @@ def idxs_pool(pool, p):
 
 
 def coq_order_file(fi, pool, shapes, cases):
-    desc = FUNCS[fi]
+    return coq_order_file_desc(FUNCS[fi], pool, shapes, cases)
+
+
+def coq_order_file_desc(desc, pool, shapes, cases):
     ps = coqrun.coq_list(['mk %d %s %s' % (nm, KNAME[k], coqrun.coq_bool(d)) for nm, k, d in desc])
     pl = coqrun.coq_list([coq_mod(m) for m in pool])
     cl = coqrun.coq_list(['(%s, %s)' % (coqrun.coq_list(['%d' % v for v in a]),
@@ -470,8 +473,11 @@ def _wdeco(func, *args, **kwargs):
     return func(*args, **kwargs)
 
 
-HKINDS = ['pok', 'func', 'fwrap', 'swrap', 'wwrap', 'iw', 'is', 'if']
-MODEL_KIND = {'pok': 0, 'func': 1, 'fwrap': 2, 'swrap': 2, 'wwrap': 2, 'iw': 2, 'is': 2, 'if': 2}
+HKINDS = ['pok', 'pokeq', 'func', 'fwrap', 'swrap', 'wwrap', 'iw', 'is', 'if']
+MODEL_KIND = {'pok': 0, 'pokeq': 0, 'func': 1, 'fwrap': 2, 'swrap': 2, 'wwrap': 2, 'iw': 2, 'is': 2, 'if': 2}
+# 'pokeq': the kwoargs class again, but all its instances compare and hash equal
+# (value objects); they are still distinct objects and must be kept apart
+POKS = ('pok', 'pokeq')
 # forwards_to_ivar('target') under wrapper_decorator / decorator / emulate=True: the
 # forwarded-to attribute only exists after `conn`; before it a retrieval fails
 # (sigtools.signature) or silently falls back (inspect.signature)
@@ -485,6 +491,17 @@ def _target(x, y=1):
 def build_classes(kind):
     if kind == 'pok':
         class A(object):
+            @modifiers.kwoargs('b')
+            def m(self, a, b=2):
+                return (self, a, b)
+    elif kind == 'pokeq':
+        class A(object):
+            def __eq__(self, other):
+                return isinstance(other, A)
+
+            def __hash__(self):
+                return 7
+
             @modifiers.kwoargs('b')
             def m(self, a, b=2):
                 return (self, a, b)
@@ -643,7 +660,7 @@ def run_history(kind, hist):
     def check_sig(s, got, step, which=''):
         want = fresh_sig(kind, ver, 'inst', connected[s])
         if got != want:
-            stale = (kind == 'pok' and cached_ver[s] is not None and cached_ver[s] != ver
+            stale = (kind in POKS and cached_ver[s] is not None and cached_ver[s] != ver
                      and got == fresh_sig(kind, cached_ver[s], 'inst'))
             finds.append(('C18:stale-cache' if stale else 'C18:history',
                           'step %d (%s): signature %s%s, a fresh retrieval gives %s' % (
@@ -654,7 +671,7 @@ def run_history(kind, hist):
             return                      # a plain bound method: inspect does not know the forger
         ig = isig_str(obj)
         want = fresh_isig(kind, ver, 'inst', connected[s])
-        if ig != want and not (kind == 'pok' and ig == got):
+        if ig != want and not (kind in POKS and ig == got):
             finds.append(('C18:history', 'step %d (%s): inspect.signature %s%s, on a fresh object %s' % (
                 step, OPS[hist[step]], which, ig, want)))
         elif connected[s] and ig != got:
@@ -708,7 +725,7 @@ def run_history(kind, hist):
             want = fresh_sig(kind, ver, 'cls')
             if got != want:
                 finds.append(('C18:history', 'step %d (%s): class-level signature %s, fresh %s' % (step, name, got, want)))
-            codes.append(code(1 if name == 'getC' else 2, True, gver if kind in ('pok', 'func') else 0))
+            codes.append(code(1 if name == 'getC' else 2, True, gver if kind in POKS + ('func',) else 0))
             del obj
         elif name == 'redec':
             ver += 1
@@ -733,7 +750,7 @@ def run_history(kind, hist):
                     via_insts = any(getattr(k, '__self__', None) is wr() for k in list(desc.insts.keys()))
                 except Exception:
                     pass
-                if kind == 'pok' and was_touched and via_insts:
+                if kind in POKS and was_touched and via_insts:
                     key = 'C18:cache-leak'
                 else:
                     key = 'C18:leak:%s%s' % (kind, '' if was_touched else '-untouched')
@@ -755,9 +772,9 @@ def histories(ctx):
     rng = ctx.rng('hist')
     n = len(OPS)
     out = []
-    full = {'pok': 4, 'func': 3, 'fwrap': 3, 'swrap': 3, 'wwrap': 3, 'iw': 2, 'is': 2, 'if': 2}
+    full = {'pok': 4, 'pokeq': 2, 'func': 3, 'fwrap': 3, 'swrap': 3, 'wwrap': 3, 'iw': 2, 'is': 2, 'if': 2}
     if not ctx.quick:
-        full = {'pok': 4, 'func': 4, 'fwrap': 3, 'swrap': 3, 'wwrap': 3, 'iw': 3, 'is': 3, 'if': 3}
+        full = {'pok': 4, 'pokeq': 3, 'func': 4, 'fwrap': 3, 'swrap': 3, 'wwrap': 3, 'iw': 3, 'is': 3, 'if': 3}
     for kind in HKINDS:
         n = n_ops(kind)
         for L in range(1, full[kind] + 1):
@@ -772,7 +789,7 @@ def histories(ctx):
                         for late in ((), (s_,), (3 + s_,)):
                             out.append((kind, (early,) + conn + late + (9 + s_,)))
                             out.append((kind, (s_, early) + conn + late + (9 + s_,)))
-        extra = {'pok': 100, 'func': 100, 'fwrap': 50, 'swrap': 50, 'wwrap': 50,
+        extra = {'pok': 100, 'pokeq': 80, 'func': 100, 'fwrap': 50, 'swrap': 50, 'wwrap': 50,
                  'iw': 80, 'is': 80, 'if': 80}[kind]
         if not ctx.quick:
             extra *= 40
@@ -830,6 +847,210 @@ def part_history(ctx, rep):
     return sum(len(h) for k, h in hs)
 
 
+# ----------------------------------------------------------------- part 3: sibling translators
+# One class body holds a translator that is used on its own (`base`) AND a second
+# translator stacked on it (`derived`); both are methods.  Binding, retrieving
+# and calling the two on several instances, in any interleaving, must give for
+# each attribute what a fresh class gives when only that attribute is touched.
+# The custom getter of a translator (cg / Combination / partial(_kwoargs_start..))
+# re-applies the name sets to the bound function, i.e. the bound object must be
+# what Model/Cache.v's run_mods gives for the same modifiers on the function
+# without its first parameter.
+SIB_DESC = [(1, 1, False), (2, 1, True), (3, 1, True)]          # (a, b=52, c=53) after binding
+SIB_POOL = [('kwo', (2,)), ('kwo', (3,)), ('end', 1), ('auto', ())]
+SIB_VARIANTS = {                                                 # derived modifier -> model run
+    'kwo': (1, lambda f: modifiers.kwoargs('c')(f)),
+    'end': (2, lambda f: modifiers.posoargs(end='a')(f)),
+    'auto': (3, lambda f: modifiers.autokwoargs(f)),
+}
+SIB_SHAPES = None
+SOPS = (['%s-%s%d' % (o, a, i) for a in ('base', 'derived') for o in ('get', 'ret', 'call') for i in (0, 1)]
+        + ['retC-base', 'retC-derived', 'drop0', 'drop1'])
+
+
+def sib_shapes():
+    global SIB_SHAPES
+    if SIB_SHAPES is None:
+        SIB_SHAPES = call_shapes(SIB_DESC)[::2]
+    return SIB_SHAPES
+
+
+def build_sibling(variant):
+    def fetch(self, a, b=52, c=53):
+        return (self, a, b, c)
+    base_t = modifiers.kwoargs('b')(fetch)
+
+    class A(object):
+        base = base_t
+        derived = SIB_VARIANTS[variant][1](base_t)
+
+    class B(A):
+        pass
+    return A, B
+
+
+def sib_observe(obj, owner):
+    """everything observable of one bound attribute: printed signatures, encoded
+    signature, forwarded arguments and real results on the call shapes"""
+    try:
+        ssig = sigtools.signature(obj)
+        enc = enc_sig(ssig)
+        st = str(ssig)
+    except Exception as e:
+        enc, st = None, 'EXC:' + type(e).__name__
+    fw = []
+    real = []
+    bind_ok = True
+    for a, k in sib_shapes():
+        fw += forward_of(obj, a, k)
+        kw = dict((NAMES[x], v) for x, v in k)
+        try:
+            r = obj(*a, **kw)
+            if r[0] is not owner:
+                bind_ok = False
+            real.append(tuple(r[1:]))
+        except TypeError:
+            real.append('TypeError')
+    return {'str': st, 'istr': isig_str(obj), 'enc': enc, 'fw': fw, 'real': real, 'bind': bind_ok}
+
+
+_SIB_FRESH = {}
+
+
+def sib_fresh(variant, attr, level):
+    key = (variant, attr, level)
+    if key not in _SIB_FRESH:
+        A, B = build_sibling(variant)
+        if level == 'inst':
+            i = A()
+            _SIB_FRESH[key] = sib_observe(getattr(i, attr), i)
+        else:
+            _SIB_FRESH[key] = {'str': sig_str(getattr(A, attr)), 'istr': isig_str(getattr(A, attr))}
+    return _SIB_FRESH[key]
+
+
+def run_sibling(variant, hist):
+    """returns (model cases {(attr, ans)}, findings)"""
+    A, B = build_sibling(variant)
+    inst = [A(), B()]
+    held = [[], []]
+    touched = [False, False]
+    finds = []
+    cases = set()
+    for step, o in enumerate(hist):
+        name = SOPS[o]
+        if name.startswith('drop'):
+            s_ = int(name[-1])
+            wr = weakref.ref(inst[s_])
+            was = touched[s_]
+            inst[s_] = None
+            del held[s_][:]
+            gc.collect()
+            if wr() is not None:
+                via = any(getattr(k, '__self__', None) is wr()
+                          for d in (A.__dict__['base'], A.__dict__['derived']) for k in list(d.insts.keys()))
+                key = 'C18:cache-leak' if (was and via) else 'C18:leak:sibling%s' % ('' if was else '-untouched')
+                finds.append((key, 'step %d (%s): the instance is still alive after del + gc.collect()' % (step, name)))
+            inst[s_] = (A, B)[s_]()
+            touched[s_] = False
+            continue
+        if name.startswith('retC'):
+            attr = name.split('-')[1]
+            obj = getattr(B, attr)
+            want = sib_fresh(variant, attr, 'cls')
+            got = {'str': sig_str(obj), 'istr': isig_str(obj)}
+            if got != want:
+                finds.append(('C18:history', 'step %d (%s): class-level signature %s, on a fresh class %s' % (
+                    step, name, got['str'], want['str'])))
+            continue
+        op, rest = name.split('-')
+        attr, s_ = rest[:-1], int(rest[-1])
+        obj = getattr(inst[s_], attr)
+        touched[s_] = True
+        if op == 'get':
+            held[s_].append(obj)
+        ob = sib_observe(obj, inst[s_])
+        want = sib_fresh(variant, attr, 'inst')
+        if not ob['bind']:
+            finds.append(('C18:binding', 'step %d (%s): calling the object returned for instance %d runs on another object'
+                          % (step, name, s_)))
+        if ob['str'] != want['str'] or ob['istr'] != want['istr'] or ob['enc'] != want['enc']:
+            finds.append(('C18:history', 'step %d (%s): %s advertises %s (inspect: %s); the same attribute of a fresh class '
+                          'advertises %s' % (step, name, attr, ob['str'], ob['istr'], want['str'])))
+        elif ob['real'] != want['real'] or ob['fw'] != want['fw']:
+            j = [i for i in range(len(want['real'])) if ob['real'][i] != want['real'][i]]
+            a, k = sib_shapes()[j[0]] if j else sib_shapes()[0]
+            finds.append(('C18:history', 'step %d (%s): %s%s behaves differently from the same attribute of a fresh class: '
+                          'call args=%s kwargs=%s gives %s instead of %s' % (
+                              step, name, attr, ob['str'], list(a), dict((NAMES[x], v) for x, v in k),
+                              ob['real'][j[0]] if j else '(different forwarded arguments)',
+                              want['real'][j[0]] if j else '')))
+        if ob['enc'] is not None:
+            cases.add((attr, (1, H(ob['enc']), H(ob['fw']))))
+        del obj
+    return cases, finds
+
+
+def sibling_histories(ctx, variant):
+    rng = ctx.rng('sib-' + variant)
+    n = len(SOPS)
+    out = []
+    for L in range(1, (2 if ctx.quick else 3) + 1):
+        out += list(itertools.product(range(n), repeat=L))
+    for _ in range(400 if ctx.quick else 6000):
+        out.append(tuple(rng.randrange(n) for _ in range(rng.choice([3, 4, 5, 6]))))
+    return out
+
+
+def part_sibling(ctx, rep):
+    n_ops_total = 0
+    n_h = 0
+    gc.collect()
+    gc.freeze()
+    try:
+        for variant in sorted(SIB_VARIANTS):
+            allcases = set()
+            for h in sibling_histories(ctx, variant):
+                cases, finds = run_sibling(variant, list(h))
+                allcases |= cases
+                n_ops_total += len(h)
+                n_h += 1
+                rep.distinct.add(('sib', variant, h))
+                seen = set()
+                for key, what in finds:
+                    if key in seen:
+                        continue
+                    seen.add(key)
+                    rep.violation(key, 'sibling translators (base = kwoargs(\'b\')(f); derived = %s(base)), history %s: %s' % (
+                        {'kwo': "kwoargs('c')", 'end': "posoargs(end='a')", 'auto': 'autokwoargs'}[variant],
+                        [SOPS[o] for o in h], what),
+                        {'part': 'sibling', 'variant': variant, 'history': list(h), 'key': key})
+            # the bound objects against the model: run_mods on the function without `self`
+            lst = sorted(allcases)
+            mcases = [((0,) if attr == 'base' else (0, SIB_VARIANTS[variant][0]), {'ans': ans}) for attr, ans in lst]
+            pre = coq_order_file_desc(SIB_DESC, SIB_POOL, sib_shapes(), mcases)
+            bad = coqrun.parse_nat_list(coqrun.coq_eval(pre[0], pre[1], name='c18sib')[0])
+            for i in bad[:5]:
+                rep.corr_break('run_mods on the bound function vs bound sibling translator',
+                               '%s %s' % (variant, lst[i][0]), 'model (adm, hash sig, hash calls) differs', lst[i][1])
+            got_attrs = set(a for a, _ in lst)
+            if got_attrs != {'base', 'derived'}:
+                rep.corr_break('sibling coverage', variant, 'both attributes observed', sorted(got_attrs))
+    finally:
+        gc.unfreeze()
+    rep.coverage['sibling_histories'] = n_h
+    return n_ops_total * len(sib_shapes())
+
+
+def _replay_sibling(r):
+    cases, finds = run_sibling(r['variant'], list(r['history']))
+    for key, what in finds:
+        if r.get('key') is None or key == r['key']:
+            return '%s: sibling translators (%s), history %s: %s' % (
+                key, r['variant'], [SOPS[o] for o in r['history']], what)
+    return None
+
+
 # ----------------------------------------------------------------- fixed scenarios
 def posoargs_self_scenario():
     """posoargs('self', 'a') on a method: decoration and class-level use work,
@@ -851,7 +1072,7 @@ def posoargs_self_scenario():
 
 def run(ctx, rep):
     rep.rule = ('order: one (function, ordered modifier list) whose run is admissible on the implementation; '
-                'history: one (class kind, operation sequence)')
+                'history: one (class kind, operation sequence); sibling: one (derived modifier, operation sequence)')
     rep.assumptions = [
         'reachability in the heap model abstracts CPython: reclaimed = weakref dead after del + gc.collect()',
         'annotations from different annotate calls agree where they overlap (hypothesis of C18_order)',
@@ -859,7 +1080,8 @@ def run(ctx, rep):
     ]
     e1 = part_order(ctx, rep)
     e2 = part_history(ctx, rep)
-    rep.evaluations = e1 + e2
+    e3 = part_sibling(ctx, rep)
+    rep.evaluations = e1 + e2 + e3
     msg = posoargs_self_scenario()
     if msg:
         rep.violation('C18:posoargs-self-rebind', msg, {'part': 'posoargs-self'})
@@ -923,6 +1145,8 @@ def replay(ctx, data):
         return _replay_order(r)
     if r.get('part') == 'history':
         return _replay_history(r)
+    if r.get('part') == 'sibling':
+        return _replay_sibling(r)
     if r.get('part') == 'posoargs-self':
         return posoargs_self_scenario()
     return None
